@@ -65,6 +65,9 @@ func runC15(c *Check) {
 				c.Gate(fa, r, nthKey("create", n)+":exists", "'exists' is answered exactly on the server's node-exists error", p.ErrIs(true, zkErr+"ErrNodeExists", zkCreate))
 			case "propagate:" + zkCreate:
 				c.Hold(p.Name(f), p.InstrPos(r), nthKey("create", n)+":propagate", "the create's own error (or nil) is returned")
+			case "nil":
+				// `if err == nil { return nil }`: the server call's own (nil) result, spelled as a constant
+				c.Gate(fa, r, nthKey("create", n)+":propagate", "nil is answered only when the server call returned nil", p.NilErr(zkCreate))
 			default:
 				c.Fail(p.Name(f), p.InstrPos(r), nthKey("create", n), "create returns 'exists' or the server call's own result", "returns "+d)
 			}
